@@ -36,6 +36,8 @@ def kytea_fns(w):
 
 def run(chk):
     w = C.world_for(chk)
+    from . import ctors as _ctors2
+    _ctors2.run(chk, w, only=["model::Model::new", "DictModel::new"])
     # rejecting an input means returning an error value: building it must not be able to fail (shared with C05)
     from . import c05_total as _c05t
     chk.rule("R05.4", "error constructors are straight-line conversions (shared with C05)")
